@@ -6,28 +6,48 @@
 EXTENDS Dag, TraceLib, Integers
 
 S == Ev.s
+\* several containers in one scenario (copies) - same scheme as TreeTrace.tla
+VARIABLES saved, cur
+Rec == [nodes |-> nodes, edges |-> edges, nextN |-> nextN, nextE |-> nextE, eObj |-> eObj,
+        acyclic |-> acyclic, cacheV |-> cacheV, cacheR |-> cacheR]
 NoDup(s) == Cardinality(SeqToSet(s)) = Len(s)
 Keys(ps) == {ps[i][1] : i \in DOMAIN ps}
 Val(ps, k) == ps[CHOOSE i \in DOMAIN ps : ps[i][1] = k][2]
 
-ProjOK ==
-  /\ NoDup(S.n) /\ nodes' = SeqToSet(S.n)
-  /\ Keys(S.e) = DOMAIN edges' /\ Len(S.e) = Cardinality(DOMAIN edges')
-  /\ \A i \in DOMAIN S.e : LET x == S.e[i] IN edges'[x[1]] = <<x[2], x[3]>>
-  /\ Keys(S.o) = nodes' /\ Len(S.o) = Cardinality(nodes')
-  /\ Keys(S.i) = nodes' /\ Len(S.i) = Cardinality(nodes')
-  /\ \A n \in nodes' : /\ SeqToSet(Val(S.o, n)) = OutN(edges', TRUE, n)
-                       /\ SeqToSet(Val(S.i, n)) = InN(edges', TRUE, n)
-  /\ Keys(S.eo) = DOMAIN eObj' /\ Len(S.eo) = Cardinality(DOMAIN eObj')
-  /\ \A e \in DOMAIN eObj' : Val(S.eo, e) = eObj'[e]
-  /\ Keys(S.oe) = {eObj'[e] : e \in DOMAIN eObj'} /\ Len(S.oe) = Len(S.eo)
-  /\ \A e \in DOMAIN eObj' : Val(S.oe, eObj'[e]) = e
+ProjRec(st, P) ==
+  /\ NoDup(P.n) /\ st.nodes = SeqToSet(P.n)
+  /\ Keys(P.e) = DOMAIN st.edges /\ Len(P.e) = Cardinality(DOMAIN st.edges)
+  /\ \A i \in DOMAIN P.e : LET x == P.e[i] IN st.edges[x[1]] = <<x[2], x[3]>>
+  /\ Keys(P.o) = st.nodes /\ Len(P.o) = Cardinality(st.nodes)
+  /\ Keys(P.i) = st.nodes /\ Len(P.i) = Cardinality(st.nodes)
+  /\ \A n \in st.nodes : /\ SeqToSet(Val(P.o, n)) = OutN(st.edges, TRUE, n)
+                          /\ SeqToSet(Val(P.i, n)) = InN(st.edges, TRUE, n)
+  /\ Keys(P.eo) = DOMAIN st.eObj /\ Len(P.eo) = Cardinality(DOMAIN st.eObj)
+  /\ \A e \in DOMAIN st.eObj : Val(P.eo, e) = st.eObj[e]
+  /\ Keys(P.oe) = {st.eObj[e] : e \in DOMAIN st.eObj} /\ Len(P.oe) = Len(P.eo)
+  /\ \A e \in DOMAIN st.eObj : Val(P.oe, st.eObj[e]) = e
+ProjOK == ProjRec([nodes |-> nodes', edges |-> edges', eObj |-> eObj'], S)
 
 Out == res' = Ev.r
 
 TReset == /\ IsEvent("Reset")
           /\ nodes' = {} /\ edges' = <<>> /\ nextN' = 0 /\ nextE' = 0 /\ eObj' = <<>>
           /\ acyclic' = TRUE /\ cacheV' = FALSE /\ cacheR' = FALSE /\ res' = "ok"
+          /\ saved' = <<>> /\ cur' = 0
+
+Load(st) == /\ nodes' = st.nodes /\ edges' = st.edges /\ nextN' = st.nextN /\ nextE' = st.nextE /\ eObj' = st.eObj
+            /\ acyclic' = st.acyclic /\ cacheV' = st.cacheV /\ cacheR' = st.cacheR /\ res' = "ok"
+TSwitch == /\ IsEvent("Switch") /\ Ev.to \in DOMAIN saved /\ Ev.to # cur
+           /\ saved' = [o \in (DOMAIN saved \cup {cur}) \ {Ev.to} |-> IF o = cur THEN Rec ELSE saved[o]]
+           /\ cur' = Ev.to /\ Load(saved[Ev.to])
+TCopy == /\ IsEvent("Copy") /\ Ev.src = cur /\ Ev.dst # cur
+         /\ (Ev.how = "assign") = (Ev.dst \in DOMAIN saved)
+         /\ saved' = [o \in DOMAIN saved \cup {Ev.dst} |-> IF o = Ev.dst THEN [Rec EXCEPT !.eObj = <<>>] ELSE saved[o]]
+         /\ ProjRec(saved'[Ev.dst], S)
+         /\ UNCHANGED <<vars, cur>>
+TWatch == /\ IsEvent("Watch") /\ Ev.obj \in DOMAIN saved
+          /\ ProjRec(saved[Ev.obj], S)
+          /\ UNCHANGED <<vars, saved, cur>>
 
 TCreateNode   == IsEvent("CreateNode") /\ CreateNode /\ Out /\ Ev.id = nextN /\ ProjOK
 TAddSon       == IsEvent("AddSon") /\ AddSon(Ev.a[1], Ev.a[2], Ev.a[3]) /\ Out /\ ProjOK
@@ -72,8 +92,22 @@ TQBelow ==
                      /\ SeqToSet(x[4]) = SubEdges(edges, x[1])
   /\ ProjOK
 
-TraceNext == TRootAt \/ TReset \/ TCreateNode \/ TAddSon \/ TAddFather \/ TLink \/ TRemoveSon \/ TRemoveFather \/ TUnlink
-             \/ TDeleteNode \/ TQValid \/ TQRooted \/ TQFathers \/ TQLeaves \/ TQBelow
-TraceInit == Init /\ l = 1
-TraceSpec == TraceInit /\ [][TraceNext]_<<vars, l>>
+\* a copy of the observer = a second view on the same graph
+TQView ==
+  /\ IsEvent("QView") /\ QStruct /\ ProjOK
+  /\ (Ev.v \in {"T", "F"} /\ nodes # {}) => (Ev.v = "T") = acyclic
+  /\ \A i \in DOMAIN Ev.eo : Ev.eo[i][1] \in DOMAIN eObj /\ eObj[Ev.eo[i][1]] = Ev.eo[i][2]
+  /\ Ev.fresh => Keys(Ev.eo) = DOMAIN eObj
+  /\ LET K == SeqToSet(Ev.known) IN            \* nodes the view has an object for
+       /\ K \subseteq nodes /\ (Ev.fresh => K = nodes)
+       /\ {Ev.rows[i][1] : i \in DOMAIN Ev.rows} = K
+       /\ \A i \in DOMAIN Ev.rows :
+            LET x == Ev.rows[i] IN /\ SeqToSet(x[2]) = Sons(edges, x[1]) \cap K
+                                   /\ SeqToSet(x[3]) = Fathers(edges, x[1]) \cap K
+
+Single == TQView \/ TRootAt \/ TCreateNode \/ TAddSon \/ TAddFather \/ TLink \/ TRemoveSon \/ TRemoveFather \/ TUnlink
+          \/ TDeleteNode \/ TQValid \/ TQRooted \/ TQFathers \/ TQLeaves \/ TQBelow
+TraceNext == (Single /\ UNCHANGED <<saved, cur>>) \/ TReset \/ TSwitch \/ TCopy \/ TWatch
+TraceInit == Init /\ l = 1 /\ saved = <<>> /\ cur = 0
+TraceSpec == TraceInit /\ [][TraceNext]_<<vars, l, saved, cur>>
 =============================================================================
